@@ -85,6 +85,9 @@ def table():
     add('psi', sp.psi, mp.digamma, [0.5, 1.0, 3.0])
     for m in (0, 1, 2):
         add('polygamma(%d)' % m, (lambda x, m=m: sp.polygamma(m, x)), (lambda x, m=m: mp.polygamma(m, x)), [0.5, 1.0, 3.0], maxD=7)
+    # order / parameters given as NumPy arrays (0-d) instead of Python numbers
+    add('polygamma(array 1)', (lambda x: sp.polygamma(np.array(1), x)), (lambda x: mp.polygamma(1, x)), [0.5, 1.0, 3.0], maxD=7)
+    add('hyperu(array 1.5, array 0.5)', (lambda x: sp.hyperu(np.array(1.5), np.array(0.5), x)), (lambda x: mp.hyperu(1.5, 0.5, x)), [0.5, 1.0, 3.0], maxD=6)
     for a, b in [(1.5, 0.5), (0.5, 1.5), (1.0, 2.0)]:
         add('hyperu(%s,%s)' % (a, b), (lambda x, a=a, b=b: sp.hyperu(a, b, x)), (lambda x, a=a, b=b: mp.hyperu(a, b, x)), [0.5, 1.0, 3.0], maxD=6)
     for r in [0, 1, 2, 3, 4, 5, 6, 7, 8, 9, 10, 12, 14, 16, -1, -2, -3]:
